@@ -168,7 +168,7 @@ def main() -> None:
         out['ok'] = False
         out['error'] = ''.join(traceback.format_exception(type(e), e, e.__traceback__))
     with open(job['out'] + '.tmp', 'w') as f:
-        json.dump(out, f)
+        json.dump(out, f, default=repr)
     os.replace(job['out'] + '.tmp', job['out'])
     sys.stdout.flush()
     os._exit(0)
